@@ -41,13 +41,15 @@ PickW(ws) == LET s == Expand(ws) IN s[Pick(1..Len(s))]
 (*  closure variables in scope; fs: slice of closures in scope; ret: what a      *)
 (*  return looks like here: "val" (return e), "named" (both), "bare" (return),   *)
 (*  "none"; rvar: named result r in scope; dfr: body of a deferred literal;      *)
+(*  clob: body of a function literal held in a variable (it may be deferred       *)
+(*  through the variable: a recover() in it then stops the panic);                *)
 (*  top: inside main's own activation in a session program (no deferred call     *)
 (*  there: at the global scope of a session it has no function to belong to);     *)
 (*  d: remaining nesting depth; incase: inside a switch case clause (kept for    *)
 (*  statistics; the exclusion Excluded_F_C01_1 it served is gone since the defect *)
 (*  was repaired)                                                                 *)
 Ctx0 == [rd |-> {"g0", "g1"}, wr |-> {"g0", "g1"}, loc |-> {}, defd |-> {}, labs |-> <<>>, incase |-> FALSE, pure |-> FALSE,
-         fcall |-> TRUE, clos |-> {}, fs |-> FALSE, ret |-> "none", rvar |-> FALSE, dfr |-> FALSE, top |-> FALSE,
+         fcall |-> TRUE, clos |-> {}, fs |-> FALSE, ret |-> "none", rvar |-> FALSE, dfr |-> FALSE, clob |-> FALSE, top |-> FALSE,
          litidx |-> FALSE, ptrs |-> {}, sls |-> {}, maps |-> {}, strs |-> {}, gotos |-> <<>>,
          sts |-> {"t"}, qs |-> {}, bools |-> {}, consts |-> {}, clos1 |-> {}, ifs |-> {}, fvs |-> {}, chs |-> {},
          outer |-> [rd |-> {}, clos |-> {}, ptrs |-> {}, sls |-> {}, maps |-> {}, strs |-> {}, sts |-> {}, qs |-> {}, bools |-> {}, clos1 |-> {}, ifs |-> {}, fvs |-> {}, chs |-> {}], d |-> 2]
@@ -61,6 +63,13 @@ RandStr(z) == [k |-> "slit", cs |-> [i \in 1..Pick(0..(3 + 0 * z)) |-> Pick(97..
 StrVar(c)  == [k |-> "sv", s |-> Pick(c.strs)]
 StrOp(c)   == IF c.strs # {} /\ Pick(1..2) = 1 THEN StrVar(c) ELSE RandStr(0)
 GenStr(c)  == IF Pick(1..2) = 1 THEN StrOp(c) ELSE [k |-> "scat", l |-> StrOp(c), r |-> StrOp(c)]
+
+\* forms of the index of "x, m[x] = a, b": FALSE the key is written ((x)%4+4)%4, TRUE it is written x
+\* (TRUE is held back until the repair of the late evaluation of a plain index lands in /repo)
+BareForms == {FALSE}
+\* recover() in the body of a function literal held in a variable (h := func() { recover() }; defer h()):
+\* FALSE holds the form back until the repair lands in /repo
+ClobForms == FALSE
 
 GenLeaf(c) ==
     LET k == PickW(<< <<3, "lit">>, <<4, "var">>, <<1, "fld">>, <<1, "idx">>, <<IF c.ptrs # {} THEN 2 ELSE 0, "deref">>,
@@ -157,7 +166,7 @@ Inner(c)     == [c EXCEPT !.defd = {}, !.d = c.d - 1]
 
 \* body of a function literal of type func() int: its locals are its own
 GenLitBody(c) ==
-    LET c1 == [Inner(c) EXCEPT !.ret = "val", !.labs = <<>>, !.gotos = <<>>, !.dfr = FALSE, !.loc = {}, !.top = FALSE] IN
+    LET c1 == [Inner(c) EXCEPT !.ret = "val", !.labs = <<>>, !.gotos = <<>>, !.dfr = FALSE, !.clob = ClobForms, !.loc = {}, !.top = FALSE] IN
     GenB(Pick(0..2), c1) \o << [k |-> "ret", bare |-> FALSE, e |-> GenE(1, c1)] >>
 
 \* body of a deferred literal  defer func() { ... }()
@@ -245,7 +254,7 @@ Kinds(c) ==
           <<IF deep /\ ~c.top THEN deferW * eff ELSE 0, "defer">>,
           <<(IF Profile = "defer" THEN 3 ELSE 1) * eff, "panic">>,
           <<(IF Profile = "defer" THEN 2 ELSE 0) * eff, "fault">>,
-          <<IF c.dfr THEN 2 ELSE 0, "recover">>,
+          <<IF c.dfr THEN 2 ELSE IF c.clob THEN 2 ELSE 0, "recover">>,
           <<IF deep THEN 1 ELSE 0, "block">> >>
 
 \* a statement and the context for the statements that follow it in the block
@@ -310,7 +319,8 @@ GenS(c) ==
                           S(IF Cardinality(c.maps) > 1 /\ Pick(1..2) = 1
                             THEN [k |-> "mreasg", form |-> "share", s |-> d, from |-> Pick(c.maps \ {d})]
                             ELSE [k |-> "mreasg", form |-> "make", s |-> d, from |-> ""])
-      [] k = "asgidx" -> S([k |-> "asgidx", x |-> Pick(c.wr), form |-> Pick({"xfirst", "afirst"}), a |-> GenE(1, c), b |-> GenE(1, c)])
+      [] k = "asgidx" -> S([k |-> "asgidx", x |-> Pick(c.wr), form |-> Pick({"xfirst", "afirst"}), a |-> GenE(1, c), b |-> GenE(1, c),
+                              s |-> IF c.maps # {} /\ Pick(1..2) = 1 THEN Pick(c.maps) ELSE "", bare |-> Pick(BareForms)])
       [] k = "slswap" -> LET lo == Pick(0..1) IN S([k |-> "slswap", s |-> Pick(c.sls), lo |-> lo, hi |-> Pick((lo + 1)..2)])
       [] k = "mkfv"  -> LET n == Pick(FreeFvs(c)) IN
                         [s |-> [k |-> "mkfv", s |-> n, form |-> Pick({"g", "pick"})], c |-> [c EXCEPT !.fvs = @ \cup {n}, !.defd = @ \cup {n}]]
@@ -557,6 +567,13 @@ MenuF ==
       Blk(<< [k |-> "mkmap", s |-> "m1", form |-> "lit", ks |-> <<0>>, es |-> <<Lit(7)>>], DRef("relm", "m1"),
              [k |-> "mreasg", form |-> "make", s |-> "m1", from |-> ""] >>) }
     \cup { [k |-> "fault", kind |-> kd] : kd \in FamFaults }
+    \* a function literal held in a variable and deferred THROUGH the variable: recover() in its body stops the
+    \* panic; the same literal merely called by a deferred literal does not
+    \cup (IF ~ClobForms THEN {} ELSE
+          { Blk(<< [k |-> "mkclo", c |-> "c1", par |-> FALSE, body |-> << Rec("direct", TRUE), [k |-> "ret", bare |-> FALSE, e |-> Lit(0)] >>],
+                   DRef("clo", "c1") >>),
+            Blk(<< [k |-> "mkclo", c |-> "c1", par |-> FALSE, body |-> << Rec("direct", FALSE), [k |-> "ret", bare |-> FALSE, e |-> Lit(0)] >>],
+                   DLit(<< [k |-> "discard", e |-> [k |-> "clo", c |-> "c1", args |-> <<>>]] >>) >>) })
 
 
 HFunc == [named |-> TRUE, body |-> << [k |-> "print", id |-> 1, e |-> Var("p")], AsgS("r", Var("p")) >>]
@@ -631,7 +648,7 @@ LoopMenu ==
               body |-> << [k |-> "inc", x |-> "i", d |-> 1], [k |-> "ret", bare |-> FALSE, e |-> Var("i")] >>],
              [k |-> "discard", e |-> [k |-> "clo", c |-> "c1", args |-> <<>>]] >>),
       [k |-> "appclo", body |-> << [k |-> "ret", bare |-> FALSE, e |-> Var("i")] >>],
-      [k |-> "asgidx", x |-> "i", form |-> "xfirst", a |-> Bin("add", Var("i"), Lit(1)), b |-> Var("i")],
+      [k |-> "asgidx", x |-> "i", form |-> "xfirst", a |-> Bin("add", Var("i"), Lit(1)), b |-> Var("i"), s |-> "", bare |-> FALSE],
       DPrint(Var("i")),
       [k |-> "cont", lab |-> ""] }
 FamLoopKinds == {"for", "rng", "rngarr"}
@@ -657,7 +674,20 @@ SwitchFamily ==
                [k |-> "printg"] >>) :
         tg \in {1, 2, 5, 7}, dp \in 0..2, df \in BOOLEAN, f1 \in BOOLEAN, f2 \in BOOLEAN, lst \in BOOLEAN }
 
-InitLoopFam == prog \in LoopFamily \cup SwitchFamily /\ res = Run(prog)
+(* TupleFamily: tuple assignments with an index operand on the left that names the   *)
+(* variable assigned in the same statement (x, C[x] = a, b and C[x], x = b, a), for an *)
+(* array and for maps (literal, made, nil): the index is evaluated in the first phase.  *)
+TupleFamily ==
+    { WProg("", <<>>,
+            << [k |-> "def", x |-> "x", e |-> Lit(x0)],
+               [k |-> "mkmap", s |-> "m1", form |-> mf, ks |-> IF mf = "lit" THEN <<1>> ELSE <<>>, es |-> IF mf = "lit" THEN <<Lit(9)>> ELSE <<>>],
+               [k |-> "asgidx", x |-> "x", form |-> fm, a |-> a, b |-> b, s |-> tgt, bare |-> br],
+               [k |-> "asgidx", x |-> "x", form |-> fm, a |-> Bin("add", Var("x"), Lit(3)), b |-> Lit(8), s |-> tgt, bare |-> br],
+               PrintS(Var("x")), [k |-> "printm", s |-> "m1"], [k |-> "printg"] >>) :
+        x0 \in {0, 1}, mf \in {"lit", "make", "nil"}, fm \in {"xfirst", "afirst"}, tgt \in {"", "m1"},
+        a \in {Bin("add", Var("x"), Lit(1)), Bin("add", Var("x"), Lit(2)), Lit(3)}, b \in {Var("x"), Lit(7)}, br \in BareForms }
+
+InitLoopFam == prog \in LoopFamily \cup SwitchFamily \cup TupleFamily /\ res = Run(prog)
 SpecLoopFam == InitLoopFam /\ [][UNCHANGED vars]_vars
 
 InitFam == prog \in FamilyDefer /\ res = Run(prog)
